@@ -276,7 +276,11 @@ func (c *xprogCase) exprEnc(e XExpr, out *[]string) {
 
 func (c *xprogCase) Line() string {
 	c.number()
-	toks := []string{"resolve2", fmt.Sprint(c.Q), "P", fmt.Sprint(len(c.Fs))}
+	var qs []string
+	for _, f := range c.order() {
+		qs = append(qs, fmt.Sprint(f))
+	}
+	toks := []string{"resolve2", strings.Join(qs, ","), "P", fmt.Sprint(len(c.Fs))}
 	for f, fn := range c.Fs {
 		named := "_"
 		if len(fn.Tys) > 0 {
@@ -320,15 +324,47 @@ func (c *xprogCase) Line() string {
 	return strings.Join(toks, " ")
 }
 
+// order: every top-level function, starting with the queried one — asked one after the other on ONE loaded package,
+// so that an answer that depends on what was asked before shows against the model's independent answers
+func (c *xprogCase) order() []int {
+	var tops []int
+	for f, fn := range c.Fs {
+		if !fn.Lit {
+			tops = append(tops, f)
+		}
+	}
+	var out []int
+	for i := range tops {
+		out = append(out, tops[(i+c.Q)%len(tops)])
+	}
+	return out
+}
+
 func (c *xprogCase) job() (rJob, int) {
-	return rJob{Sources: []map[string]string{c.sources()}, Queries: []rQuery{{0, fmt.Sprintf("F%d", c.Q)}}}, 1
+	job := rJob{Sources: []map[string]string{c.sources()}}
+	for _, f := range c.order() {
+		job.Queries = append(job.Queries, rQuery{0, fmt.Sprintf("F%d", f)})
+	}
+	return job, len(job.Queries)
+}
+
+func joinAnswers(ans []rAnswer) (out, orc string) {
+	var outs []string
+	for _, a := range ans {
+		outs = append(outs, a.Out)
+		if a.Oracle != "" && orc == "" {
+			orc = a.Oracle
+		}
+	}
+	return strings.Join(outs, ";"), orc
 }
 
 func (c *xprogCase) Run() string {
 	if !c.have {
 		job, n := c.job()
 		ans := superviseJob(job, n, 8*time.Second)
-		c.out, c.orc, c.have = ans[0].Out, ans[0].Oracle, true
+		c.out, c.orc = joinAnswers(ans)
+		c.have = true
 	}
 	return c.out
 }
@@ -375,7 +411,7 @@ func (c *xprogCase) Oracle(out string) string {
 			}
 			cols = append(cols, strings.Join(alts, " | "))
 		}
-		if want := "(" + strings.Join(cols, ", ") + ")"; out != want {
+		if want := "(" + strings.Join(cols, ", ") + ")"; strings.SplitN(out, ";", 2)[0] != want {
 			return "a function returning only literals reports " + out + "; its literals in source order are " + want
 		}
 	}
@@ -816,15 +852,21 @@ func xprogBatch(cases []Case) []string {
 			sem <- struct{}{}
 			defer func() { <-sem; done <- struct{}{} }()
 			job := rJob{}
+			var from []int
 			for i, c := range cases[sh.start:sh.end] {
 				pc := c.(*xprogCase)
 				job.Sources = append(job.Sources, pc.sources())
-				job.Queries = append(job.Queries, rQuery{i, fmt.Sprintf("F%d", pc.Q)})
+				from = append(from, len(job.Queries))
+				for _, f := range pc.order() {
+					job.Queries = append(job.Queries, rQuery{i, fmt.Sprintf("F%d", f)})
+				}
 			}
+			from = append(from, len(job.Queries))
 			ans := superviseJob(job, len(job.Queries), 8*time.Second)
 			for i, c := range cases[sh.start:sh.end] {
 				pc := c.(*xprogCase)
-				pc.out, pc.orc, pc.have = ans[i].Out, ans[i].Oracle, true
+				pc.out, pc.orc = joinAnswers(ans[from[i]:from[i+1]])
+				pc.have = true
 				res[sh.start+i] = pc.out
 			}
 		}(sh)
@@ -839,5 +881,5 @@ var xprogStream = &Stream{
 	Name: "extended-programs", Quick: 800, Thorough: 8000, New: func() Case { return &xprogCase{} },
 	Gen:      func(r *Rng, i int) Case { return genXProg(r) },
 	BatchRun: xprogBatch, ShrinkBudget: 40, MaxShrinks: 5,
-	Rule: "programs of 2–6 functions over the extended language of Model/Resolver2: 1–3 results of int/string/error (named in a third of the functions), parameters none / `e error` / `fn func() error` / `fn func() (int, error)`, 0–3 local variables, 1–6 statements (some inside `if` blocks) among single, tuple, forwarding (`x, err = F()`) and `+=` assignments to locals, named results, captured variables, package variables and struct fields, full / forwarding / bare returns; expressions: literals, nil, opaque, identifiers (locals, named results, parameters, package variables of the same and of another file, selectors), calls with an error argument (itself an identifier, nil or a call) or a function literal argument with its own locals and statements, calls through a function-typed parameter, functions declared without body, and a literal-only function now and then; printed to Go (two files), loaded with the real loader (100 per load), asked in supervised children; every statement carries its source-order number for the model; compared: FuncResults.String(); oracle as for the core programs",
+	Rule: "programs of 2–6 functions over the extended language of Model/Resolver2: 1–3 results of int/string/error (named in a third of the functions), parameters none / `e error` / `fn func() error` / `fn func() (int, error)`, 0–3 local variables, 1–6 statements (some inside `if` blocks) among single, tuple, forwarding (`x, err = F()`) and `+=` assignments to locals, named results, captured variables, package variables and struct fields, full / forwarding / bare returns; expressions: literals, nil, opaque, identifiers (locals, named results, parameters, package variables of the same and of another file, selectors), calls with an error argument (itself an identifier, nil or a call) or a function literal argument with its own locals and statements, calls through a function-typed parameter, functions declared without body, and a literal-only function now and then; printed to Go (two files), loaded with the real loader (100 per load), every top-level function of a program asked one after the other on the same loaded package in supervised children (the model answers each question from scratch); every statement carries its source-order number for the model; compared: FuncResults.String(); oracle as for the core programs",
 }
